@@ -75,6 +75,12 @@ API_PATHS = [
     ("mol.key_index_differ", "DataPath(MapOrListValue(key=k, index=n))", [("k", "str"), ("n", "int")], "dm"),
     ("mol.key_index_differ.list", "DataPath(MapOrListValue(key=k, index=n))", [("k", "str"), ("n", "int")], "dl"),
     ("mol.int_key_index_differ", "DataPath(MapOrListValue(key=i, index=n))", [("i", "int"), ("n", "int")], "di"),
+    ("mol.key_index_differ.mid", "DataPath('a', MapOrListValue(key=k, index=n))", [("k", "str"), ("n", "int")], "dm"),
+    ("mol.key_index_differ.mid.list", "DataPath('l', MapOrListValue(key=k, index=n), 'b')", [("k", "str"), ("n", "int")], "dm"),
+    ("mol.float_key_index_differ.mid", "DataPath(MapOrListValue(), MapOrListValue(key=1.5, index=1))", [], "di"),   # (a float against a symbolic int stalls z3)
+    ("part.cond_or+index+value", "DataPath('l', ListValue(index=Index.greater_than(n), value=Value.is_instance(int, dict), condition=Value.less_than(t) | Value.greater_than(t)))", [("n", "int"), ("t", "int")], "dm"),
+    ("part.cond_xor+key+value", "DataPath(MapValue(key=Key.not_equal_to(k), value=Value.is_instance(dict, list), condition=Value.length.equal_to(n) ^ Value.length.equal_to(2)))", [("k", "str"), ("n", "int")], "dm"),
+    ("part.tree_left_chain", "DataPath(MapValue(condition=((Key.equal_to(k) | Value.is_instance(list)) & Value.truthy()) & Key.not_equal_to('l')))", [("k", "str")], "dm"),
     ("mol.key_only", "DataPath(MapOrListValue(key=i))", [("i", "int")], "dl"),
     ("mol.index_only", "DataPath(MapOrListValue(index=n))", [("n", "int")], "di"),
     ("mol.value", "DataPath(MapOrListValue(value=Value.greater_than(t)))", [("t", "int")], "dl"),
